@@ -6,7 +6,12 @@ mix special and generic elements in several shapes / memory layouts; those resul
 result or satisfy the clauses themselves.  Process-global state (anything remembered between calls outside the objects:
 caches keyed by nothing, pinned by the first / previous call's dtype, group, op or shape) is searched by replaying a
 sample of the elements in FRESH interpreters under several call orders (all float32 before all float64 and the reverse,
-strict alternation, an Exp of the other dtype as the very first call) and comparing with this process's results."""
+strict alternation, an Exp of the other dtype as the very first call) and comparing with this process's results.  Every
+element is finally evaluated on LieTensors that came into being in another way than the native constructor call: copies
+(copy.deepcopy, copy.copy, pickle, torch.save + load, clone, detach, ...) and dtype conversions / constructor forms (.to,
+.double(), .float(), pp.LieTensor / pp.SO3 ... of the converted tensor, the default dtype), from the other dtype where the
+data are representable in it; the route must give a LieTensor of the same Lie type / dtype / data and Log, Inv, Exp on it
+(and on the same route's image of Log X and Inv X) must give the native results or satisfy the clauses."""
 import math
 from ..common import *
 from ..lie import *
@@ -16,7 +21,9 @@ RULE = ('X = (unit quaternion from axis-angle, translation, scale); angle from {
         'both sides incl. |w| around eps, the same ladders around the OTHER dtype\'s eps}, both hemispheres; translation 1e-6..1e6; scale e^-8..e^8; a case is (group, dtype, X); non-trivial = '
         'not the identity; distinct by value; tolerances %d eps (rotation, log-scale), %d sqrt(eps) (translation block); each X also as a later call on a '
         'reused, overwritten LieTensor (Log, Exp, Inv), as an item of mixed batches (shapes, strided / transposed / expanded views) and, for a sample, '
-        'in fresh interpreters under other call orders (dtype blocks in both orders, alternation, Exp first)' % (K_EPS, K_SQRT))
+        'in fresh interpreters under other call orders (dtype blocks in both orders, alternation, Exp first); each X also held by a copy of its LieTensor '
+        '(deepcopy / copy / pickle / torch.save+load / clone / detach) and by the result of a dtype conversion or another constructor form '
+        '(.to, .double() / .float(), LieTensor / alias constructors of the converted tensor, default dtype)' % (K_EPS, K_SQRT))
 
 
 def gen_angle(rng, eps, kind):
@@ -423,6 +430,164 @@ def empty_batch(pp, torch, g, dname):
     return None
 
 
+# ---- provenance: the same element obtained in another way -----------------------------------------------------------
+# The property speaks about every valid element of the four types in float32 / float64, not about how the LieTensor that
+# holds it came into being.  TWINS: copies of a LieTensor (same dtype) that hold bit-for-bit the same data.  CASTS: the
+# documented ways of obtaining the float32 / float64 element from a LieTensor / tensor of the other (or the same) dtype.
+# Every route must give a LieTensor of the same Lie type, dtype, shape and data, on which Log / Inv / Exp give what they
+# give on a natively constructed element (which the model is tied to), or else satisfy the clauses.
+TWINS = ['deepcopy', 'copy', 'pickle', 'torch.save', 'clone', 'detach', 'contiguous-cpu', 'parameter-deepcopy', 'deepcopy-of-deepcopy', 'getitem-of-pickled-batch']
+CASTS = ['to(dtype)', 'to(dtype=)', 'to(tensor)', 'to(device,dtype)', 'double()/float()', 'LieTensor(cast tensor)', 'alias(cast tensor)',
+         'alias(cast LieTensor)', 'alias(list) under set_default_dtype', 'cast-then-deepcopy', 'pickle-then-cast']
+# not judged (the unchanged tree does not give a usable LieTensor at all, reported to the maintainers of the framework):
+# copy.deepcopy of a leaf LieTensor with requires_grad=True (every later call raises "A view was created in no_grad mode..."),
+# pickle / torch.save / copy.copy of a pp.Parameter (comes back as a plain torch.nn.Parameter), X.type(dtype), X.type_as(),
+# X.half().float() (plain Tensors)
+
+
+def _dt(torch, dname):
+    return torch.float64 if dname == 'float64' else torch.float32
+
+
+def obtain(pp, torch, S, tname, dtype, route):
+    """the LieTensor S (Lie type tname) -> the `same` element of dtype `dtype` by the route"""
+    import copy, pickle, io
+    cast = lambda T: T.double() if dtype == torch.float64 else T.float()
+    if route == 'deepcopy':
+        return copy.deepcopy(S)
+    if route == 'deepcopy-of-deepcopy':
+        return copy.deepcopy(copy.deepcopy(S))
+    if route == 'copy':
+        return copy.copy(S)
+    if route == 'pickle':
+        return pickle.loads(pickle.dumps(S))
+    if route == 'getitem-of-pickled-batch':
+        B = pp.LieTensor(torch.stack([S.tensor().detach(), S.tensor().detach()]), ltype=S.ltype)
+        return pickle.loads(pickle.dumps(B))[1]
+    if route == 'torch.save':
+        b = io.BytesIO()
+        torch.save(S, b)
+        b.seek(0)
+        return torch.load(b, weights_only=False)
+    if route == 'clone':
+        return S.clone()
+    if route == 'detach':
+        return S.detach()
+    if route == 'contiguous-cpu':
+        return S.cpu()
+    if route == 'parameter-deepcopy':
+        return copy.deepcopy(pp.Parameter(S.detach()))
+    if route == 'to(dtype)':
+        return S.to(dtype)
+    if route == 'to(dtype=)':
+        return S.to(dtype=dtype, copy=True)
+    if route == 'to(tensor)':
+        return S.to(torch.zeros(2, dtype=dtype))
+    if route == 'to(device,dtype)':
+        return S.to('cpu', dtype)
+    if route == 'double()/float()':
+        return cast(S)
+    if route == 'LieTensor(cast tensor)':
+        return pp.LieTensor(cast(S.tensor()), ltype=getattr(pp, tname + '_type'))
+    if route == 'alias(cast tensor)':
+        return getattr(pp, tname)(cast(S.tensor()))
+    if route == 'alias(cast LieTensor)':
+        return getattr(pp, tname)(cast(S))
+    if route == 'alias(list) under set_default_dtype':
+        old = torch.get_default_dtype()
+        try:
+            torch.set_default_dtype(dtype)
+            return getattr(pp, tname)(S.tensor().detach().tolist())
+        finally:
+            torch.set_default_dtype(old)
+    if route == 'cast-then-deepcopy':
+        return copy.deepcopy(cast(S))
+    if route == 'pickle-then-cast':
+        return cast(pickle.loads(pickle.dumps(S)))
+    raise ValueError(route)
+
+
+def wellformed(pp, torch, Y, tname, dtype, vals, shape, what):
+    """Y must be a LieTensor of Lie type tname, dtype, shape, holding vals bit-for-bit -> failure text or None"""
+    if not isinstance(Y, pp.LieTensor):
+        return '%s is a %s, not a LieTensor' % (what, type(Y).__name__)
+    want = type(getattr(pp, tname + '_type')).__name__
+    if type(getattr(Y, 'ltype', None)).__name__ != want:
+        return '%s has Lie type %s instead of %s' % (what, type(getattr(Y, 'ltype', None)).__name__, want)
+    if Y.dtype != dtype:
+        return '%s has dtype %s instead of %s' % (what, Y.dtype, dtype)
+    if tuple(Y.shape) != tuple(shape):
+        return '%s has shape %s instead of %s' % (what, tuple(Y.shape), tuple(shape))
+    got = Y.tensor().detach().reshape(-1).tolist()
+    if vals is not None and not same(got, vals):
+        return '%s holds %s instead of %s' % (what, got, vals)
+    return None
+
+
+def run_provenance(pp, torch, g, dname, p, X, single=None):
+    """p = dict(route, src, batched, used, rg, form, inv): X (values of a dname element) is put into a LieTensor S of dtype
+    p['src'], the dname element Y is obtained from S by the route; Log Y, Log(Inv Y) and Exp(Log Y) (Exp / the second Log
+    called on what the same route makes of Log Y / Inv Y) are judged like an item of a batch: equal to what a natively
+    constructed element gives (single, or computed here), or else by the property's clauses.  -> failure text or None"""
+    dtype, sdt = _dt(torch, dname), _dt(torch, p['src'])
+    alg = ALGS[GROUPS.index(g)]
+    route = p['route']
+    call = (lambda A, op: getattr(A, op)()) if p.get('form', 'method') == 'method' else (lambda A, op: getattr(pp, op)(A))
+    raw = torch.tensor([X] if p.get('batched') else X, dtype=sdt)
+    if raw.to(dtype).reshape(-1).tolist() != list(X):
+        raise ValueError('X is not representable in the source dtype %s' % p['src'])
+    snap = raw.clone()
+    S = pp.LieTensor(raw, ltype=getattr(pp, g + '_type'))
+    if p.get('rg'):
+        S.requires_grad_(True)
+    if p.get('used'):
+        # the object the element is obtained from has already answered the three calls
+        call(call(S, 'Log'), 'Exp')
+        call(S, 'Inv')
+    how = 'the %s %s element X=%s obtained by %s from a %s LieTensor%s%s' % (
+        dname, g, X, route, p['src'], ' (batch of 1)' if p.get('batched') else '', ' that answered Log / Exp / Inv before' if p.get('used') else '')
+    again = (lambda A, tn: obtain(pp, torch, A, tn, dtype, route)) if route not in ('parameter-deepcopy', 'getitem-of-pickled-batch') else (lambda A, tn: obtain(pp, torch, A, tn, dtype, 'deepcopy'))
+    try:
+        Y = obtain(pp, torch, S, g, dtype, route)
+        why = wellformed(pp, torch, Y, g, dtype, list(X), raw.shape, 'the element')
+        if why:
+            return '%s: %s' % (how, why)
+        L = call(Y, 'Log')
+        why = wellformed(pp, torch, L, alg, dtype, None, tuple(raw.shape[:-1]) + (ADIM[g],), 'Log X')
+        if why:
+            return '%s: %s' % (how, why)
+        I = call(Y, 'Inv')
+        why = wellformed(pp, torch, I, g, dtype, None, raw.shape, 'Inv X')
+        if why:
+            return '%s: %s' % (how, why)
+        if p.get('inv'):
+            I = again(I.detach(), g)          # the same route applied to the result Inv X
+        LI = call(I, 'Log')
+        Lv = L.tensor().detach().reshape(-1).tolist()
+        if all(math.isfinite(v) for v in Lv):
+            A = again(L.detach(), alg)        # ... and to the algebra element Log X
+            why = wellformed(pp, torch, A, alg, dtype, Lv, L.shape, 'the %s of Log X' % route)
+            if why:
+                return '%s: %s' % (how, why)
+            E = call(A, 'Exp')
+            why = wellformed(pp, torch, E, g, dtype, None, raw.shape, 'Exp(Log X)')
+            if why:
+                return '%s: %s' % (how, why)
+            Ev = E.tensor().detach().reshape(-1).tolist()
+        else:
+            Ev = [float('nan')] * GDIM[g]
+        if not torch.equal(snap, raw) or not same(Y.tensor().detach().reshape(-1).tolist(), list(X)):
+            return '%s: Log / Inv / Exp changed the element they were called on' % how
+    except Exception as e:
+        return '%s: raised %r' % (how, e)
+    why = judge_item(pp, torch, g, dname, X, single, Lv, LI.tensor().detach().reshape(-1).tolist(), Ev)
+    return ('%s gives Log X = %s, Log(Inv X) = %s, Exp(Log X) = %s: %s' % (how, Lv, LI.tensor().detach().reshape(-1).tolist(), Ev, why)) if why else None
+
+
+def representable(torch, X, dname):
+    return torch.tensor(X, dtype=_dt(torch, dname)).double().tolist() == list(X)
+
+
 # ---- fresh interpreters: process-global state ----------------------------------------------------------------------
 # A step is dict(g, dtype, X[, batched, form]) -> Log X, Log(Inv X), Exp(Log X), or dict(g, dtype, x, exp=True[, batched])
 # -> Exp x, Log(Exp x).  A schedule (list of steps) is executed in order by a NEW python process, so that whatever the
@@ -729,6 +894,58 @@ def run(ctx):
             else:
                 sub, why = steps[:k + 1], 'observed once as step %d of the schedule %s, not again in a re-run: %s' % (k + 1, name, why)
             report(key, '%s [%s %s, schedule %s]' % (why, st['g'], st['dtype'], name), dict(g=st['g'], dtype=st['dtype'], X=st.get('X', st.get('x')), fresh=dict(steps=sub)))
+    # provenance: every element again as a copy of its LieTensor (TWINS) and as the result of a dtype conversion / of another
+    # constructor form (CASTS), the routes taken in rotation per (group, dtype); every float32 element also widened to the
+    # float64 element with the same data; exactly representable unit elements (valid in both dtypes) in both directions
+    pr = _random.Random(hr.getrandbits(64))
+    cyc = {}
+    other = {'float64': 'float32', 'float32': 'float64'}
+
+    def prov(g, dname, X, routes, src, single, tag):
+        k = cyc[(g, dname, tag)] = cyc.get((g, dname, tag), -1) + 1
+        route = routes[k % len(routes)]
+        p = dict(route=route, src=src, batched=pr.random() < 0.3, used=pr.random() < 0.5, rg=(pr.random() < 0.25 and 'deepcopy' not in route),
+                 form=pr.choice(['method', 'function']), inv=pr.random() < 0.5)
+        ctx.count('provenance:%s' % route)
+        try:
+            why = run_provenance(pp, torch, g, dname, p, X, single)
+        except Exception as e:
+            why = 'provenance %s raised %r' % (p, e)
+        if why:
+            report('provenance:%s:%s' % (route, g), '%s [%s %s]' % (why, g, dname), dict(g=g, dtype=dname, X=X, prov=p))
+
+    nwide = 0
+    for m in meta:
+        g, dname, X = m['g'], m['dtype'], m['X']
+        single = (m['impl'], m['li'], m['back'])
+        prov(g, dname, X, TWINS, dname, single, 'twin')
+        src = other[dname] if (pr.random() < 0.7 and representable(torch, X, other[dname])) else dname
+        prov(g, dname, X, CASTS, src, single, 'cast')
+        if dname == 'float32':
+            nwide += 1
+            prov(g, 'float64', X, CASTS, 'float32', None, 'widen')
+    nunit = 0
+    for g in GROUPS:
+        for dname in ('float64', 'float32'):
+            seen = set()
+            for _ in range(ctx.scale(10, 40)):
+                X = [float(v) for v in unit_elt(pr, g)]
+                if tuple(X) in seen:
+                    continue
+                seen.add(tuple(X))
+                nunit += 1
+                ctx.count('provenance:exact-unit-element')
+                try:
+                    why = confirm(pp, torch, g, dname, X) or roundtrip(pp, torch, g, dname, X)
+                except Exception as e:
+                    why = 'raised %r' % (e,)
+                if why:
+                    report('exact-unit:%s:%s' % (g, dname), 'Log(%s) [%s %s, exactly representable unit element]: %s' % (X, g, dname, why), dict(g=g, dtype=dname, X=X, both=True))
+                    continue
+                prov(g, dname, X, TWINS, dname, None, 'unit-twin')
+                prov(g, dname, X, CASTS, other[dname], None, 'unit-cast')
+    ctx.notes.append('every element also as a copy of its LieTensor (%s) and as the result of a conversion / constructor form (%s), from the other dtype where the data allow it; '
+                     '%d float32 elements widened to float64; %d exactly representable unit elements converted in both directions' % (', '.join(TWINS), ', '.join(CASTS), nwide, nunit))
     ctx.notes.append('%d elements replayed in %d fresh interpreters under other call orders (%s)' % (len(elems), len(scheds), ', '.join(scheds)))
     ctx.notes.append('%d batches (mixed special/generic items, 2-D shapes, strided / transposed / expanded views, empty) compared item by item with single-element calls; every case also through Log / Exp / Inv histories on one object' % nb)
     r = run_interval('C02', 'Model.LieGroup Model.LieExp Model.LieLog', cases)
@@ -781,6 +998,10 @@ def replay(ctx, c):
         return fresh_fail(pp, torch, c['fresh']['steps'])
     if c.get('hist'):
         return run_history(pp, torch, c['g'], c['dtype'], c['hist'], c['X'])
+    if c.get('prov'):
+        return run_provenance(pp, torch, c['g'], c['dtype'], c['prov'], c['X'])
+    if c.get('both'):
+        return confirm(pp, torch, c['g'], c['dtype'], c['X']) or roundtrip(pp, torch, c['g'], c['dtype'], c['X'])
     if c.get('batch'):
         fails = run_batch(pp, torch, c['g'], c['dtype'], c['batch'])
         return '; '.join(w for _, _, w in fails[:3]) if fails else None
